@@ -12,9 +12,9 @@ for M in $OUT/mut*; do
   PYTHONPATH=$WT /venv/bin/python $M/demo.py > /dev/null 2>&1; RC1=$?
   echo "== $(basename $OUT) $N [$PS]: tests: $T | demo clean rc=$RC0 mutated rc=$RC1"
   for Q in $PS; do
-    R=$(cd /verif && TELINGO_REPO=$WT ./check $Q 2>&1 | grep -E "^VIOLATION|^OK|^HARNESS" | cut -c1-70 | tr '\n' ' ')
+    R=$(cd ${VERIF_DIR:-/verif} && TELINGO_REPO=$WT ./check $Q 2>&1 | grep -E "^VIOLATION|^OK|^HARNESS" | cut -c1-70 | tr '\n' ' ')
     echo "   check $Q: $R"
   done
   git -C $WT checkout -q -- . ; git -C $WT clean -fdq
 done
-rm -f /verif/replays/*.json
+rm -f ${VERIF_DIR:-/verif}/replays/*.json
